@@ -5,16 +5,18 @@
    usage: confirm_seed.py <Cxx> <A|B> <property-needs text file or ->"""
 import sys, os, subprocess, json, shutil, time
 pid, x = sys.argv[1], sys.argv[2]
-src = "/tmp/seed/%s/out/%s" % (pid, x)
-wt = "/tmp/confirm_%s%s" % (pid, x)
-dst = "/verif/seeded/%s%s" % (pid, x)
+root = os.environ.get("SEED_ROOT", "/tmp/seed")
+name = {"A": "C", "B": "D"}[x] if root.endswith("seed2") else x       # second round is stored as <id>C / <id>D
+src = "%s/%s/out/%s" % (root, pid, x)
+wt = "/tmp/confirm_%s%s" % (pid, name)
+dst = "/verif/seeded/%s%s" % (pid, name)
 def sh(cmd, cwd=None, timeout=900):
     try:
         p = subprocess.run(cmd, shell=True, cwd=cwd, stdout=subprocess.PIPE, stderr=subprocess.STDOUT, text=True, errors="replace", timeout=timeout)
         return p.returncode, p.stdout
     except subprocess.TimeoutExpired as e:
         return 124, "timeout"
-meta = {"id": pid + x, "property": pid, "source": "independent sub-agent given only the property text and a scratch worktree", "confirmed_at": time.strftime("%Y-%m-%dT%H:%M:%S")}
+meta = {"id": pid + name, "property": pid, "source": "independent sub-agent given only the property text and a scratch worktree", "confirmed_at": time.strftime("%Y-%m-%dT%H:%M:%S")}
 subprocess.run("git -C /repo worktree remove --force %s 2>/dev/null; rm -rf %s" % (wt, wt), shell=True)
 base = sys.argv[3] if len(sys.argv) > 3 else "HEAD"
 rc, out = sh("git -C /repo worktree add --detach %s %s" % (wt, base))
@@ -49,6 +51,6 @@ try:
     except Exception:
         pass
     json.dump(meta, open(os.path.join(dst, "meta.json"), "w"), indent=1)
-    print(pid + x, "confirmed" if ok else "NOT CONFIRMED", {k: meta.get(k) for k in ("demo_on_unchanged_tree_exit", "patch_applies", "test_suite_passes_with_patch", "demo_with_patch_exit")})
+    print(pid + name, "confirmed" if ok else "NOT CONFIRMED", {k: meta.get(k) for k in ("demo_on_unchanged_tree_exit", "patch_applies", "test_suite_passes_with_patch", "demo_with_patch_exit")})
 finally:
     subprocess.run("git -C /repo worktree remove --force %s 2>/dev/null; rm -rf %s; git -C /repo worktree prune" % (wt, wt), shell=True)
